@@ -135,7 +135,7 @@ def run(ctx):
     res.cov("evaluations", n)
     res.cov("distinct_nontrivial", len(docs))
     res.cov("cases_by_kind", kinds)
-    res.cov("rule", "states = distinct documents written; transitions = builder call sequences / constructed values serialised by the real writer: every LaunchBuilder call sequence over {4 process shapes, 2 labels, 2 slices} to the depth bound, every BuildPlanBuilder sequence over {provides a, provides 'b c', requires, requires+metadata, or} to the depth bound (incl. leading/trailing/double or), 20 payload strings substituted at every string position one at a time, every TOML value kind as metadata (plan, layer metadata x types, store), exec.d key/value sets through fd 3, package descriptors over URI kinds")
+    res.cov("rule", "states = distinct documents written; transitions = builder call sequences / constructed values serialised by the real writer: every LaunchBuilder call sequence over {4 process shapes, 2 labels, 2 slices} to the depth bound, every BuildPlanBuilder sequence over {provides a, provides 'b c', requires, requires+metadata (set twice, the last value counts), or} to the depth bound (incl. leading/trailing/double or), 20 payload strings substituted at every string position one at a time, every TOML value kind as metadata (plan, layer metadata x types, store), exec.d key/value sets through fd 3, package descriptors over URI kinds")
     res.cov("bound", {"launch_depth": 5 if ctx.thorough else 4, "plan_depth": 7 if ctx.thorough else 5})
     res.cov("exhaustive", True)
     res.assume("tomllib (CPython) is the independent TOML 1.0 reader; the intended document is recorded from builder inputs")
